@@ -327,3 +327,136 @@ impl Drop for World {
         }
     }
 }
+
+// ---------------------------------------------------------------------------------------------
+// MT engine: the same in-memory transport on a multi-thread runtime with real time (true
+// parallelism between connection handlers).  Barriers are protocol-level (PING/PONG and a
+// self-addressed message through the connection's own FIFO queue); a real-time wait that
+// expires makes the case inconclusive, never a violation.
+
+use std::sync::atomic::{AtomicBool, Ordering as AtomOrd};
+use std::sync::Mutex as StdMutex;
+
+pub static MT_ACTIVE: AtomicBool = AtomicBool::new(false);
+lazy_static::lazy_static! {
+    pub static ref MT_PANICS: StdMutex<Vec<PanicRec>> = StdMutex::new(vec![]);
+}
+
+pub fn install_mt_panic_hook() {
+    static ONCE: std::sync::Once = std::sync::Once::new();
+    install_panic_hook();
+    ONCE.call_once(|| {
+        let prev = std::panic::take_hook();
+        std::panic::set_hook(Box::new(move |info| {
+            let on_worker = std::thread::current().name().map_or(false, |n| n.starts_with("sirc-mt"));
+            if MT_ACTIVE.load(AtomOrd::SeqCst) && on_worker {
+                let msg = if let Some(s) = info.payload().downcast_ref::<&str>() {
+                    s.to_string()
+                } else if let Some(s) = info.payload().downcast_ref::<String>() {
+                    s.clone()
+                } else {
+                    "<non-string panic>".to_string()
+                };
+                let loc = info.location().map(|l| format!("{}:{}", l.file(), l.line())).unwrap_or_default();
+                MT_PANICS.lock().unwrap().push(PanicRec { task: None, msg, loc });
+            } else {
+                prev(info);
+            }
+        }));
+    });
+}
+
+pub struct MtConn {
+    pub io: Option<DuplexStream>,
+    pub buf: Vec<u8>,
+    pub lines: Vec<String>,
+    pub eof: bool,
+}
+
+pub struct MtWorld {
+    pub rt: Runtime,
+    pub state: Arc<MainState>,
+    pub conns: Vec<MtConn>,
+}
+
+impl MtWorld {
+    pub fn new(cfg: MainConfig, workers: usize) -> MtWorld {
+        install_mt_panic_hook();
+        MT_ACTIVE.store(true, AtomOrd::SeqCst);
+        let rt = Builder::new_multi_thread()
+            .worker_threads(workers.max(2))
+            .thread_name("sirc-mt")
+            .enable_all()
+            .build()
+            .expect("mt runtime");
+        let state = Arc::new(MainState::new_from_config(cfg));
+        MtWorld { rt, state, conns: vec![] }
+    }
+
+    pub fn connect(&mut self) -> usize {
+        let (client, server) = tokio::io::duplex(1 << 20);
+        let id = self.conns.len();
+        let st = self.state.clone();
+        let addr = addr_for(id);
+        self.rt.spawn(verif_serve_mem(st, server, addr));
+        self.conns.push(MtConn { io: Some(client), buf: vec![], lines: vec![], eof: false });
+        id
+    }
+
+    pub fn send_bytes(&mut self, c: usize, b: &[u8]) {
+        if let Some(io) = self.conns[c].io.as_mut() {
+            let _ = self.rt.block_on(async { io.write_all(b).await });
+        }
+    }
+
+    // read until `done` says so for the lines received so far (all lines are kept); false on timeout
+    pub fn read_until(&mut self, c: usize, timeout: Duration, done: &dyn Fn(&[String]) -> bool) -> bool {
+        let conn = &mut self.conns[c];
+        let start_len = conn.lines.len();
+        let _ = start_len;
+        if done(&conn.lines) {
+            return true;
+        }
+        let Some(io) = conn.io.as_mut() else { return false };
+        let deadline = std::time::Instant::now() + timeout;
+        loop {
+            if conn.eof {
+                return done(&conn.lines);
+            }
+            let left = deadline.saturating_duration_since(std::time::Instant::now());
+            if left.is_zero() {
+                return false;
+            }
+            let mut tmp = [0u8; 16384];
+            let r = self.rt.block_on(async { tokio::time::timeout(left, io.read(&mut tmp)).await });
+            match r {
+                Err(_) => return false,
+                Ok(Ok(0)) | Ok(Err(_)) => {
+                    conn.eof = true;
+                }
+                Ok(Ok(n)) => {
+                    conn.buf.extend_from_slice(&tmp[..n]);
+                    while let Some(p) = conn.buf.iter().position(|&b| b == b'\n') {
+                        let mut line: Vec<u8> = conn.buf.drain(..=p).collect();
+                        line.pop();
+                        if line.last() == Some(&b'\r') {
+                            line.pop();
+                        }
+                        conn.lines.push(String::from_utf8_lossy(&line).into_owned());
+                    }
+                }
+            }
+            if done(&conn.lines) {
+                return true;
+            }
+        }
+    }
+}
+
+impl Drop for MtWorld {
+    fn drop(&mut self) {
+        for c in self.conns.iter_mut() {
+            c.io = None;
+        }
+    }
+}
